@@ -83,9 +83,8 @@ def jsonComp (c : Comp) : Json :=
 def jsonCirc (c : Circ) : Json :=
   Json.mkObj [("components", .arr (c.components.map jsonComp).toArray), ("ground", jsonJ c.ground)]
 
-def jsonInPlace (r : Option Err × J) : Json :=
-  Json.mkObj [("res", match r.1 with | none => Json.mkObj [("ok", jsonJ r.2)] | some e => Json.mkObj [("err", e.tag)]),
-              ("post", jsonJ r.2)]
+def jsonTreeRes (r : Except Err J) (arg : J) : Json :=
+  Json.mkObj [("res", jsonExcept jsonJ r), ("post", jsonJ arg)]
 
 /-- op `c17_to_complex` {z, deg, trig} -/
 def h_toComplex : Handler := fun j => do
@@ -120,14 +119,14 @@ def h_undictifyCircuit : Handler := fun j => do
 def h_dictify : Handler := fun j => do
   let t ← getJ (← j.getObjVal? "t")
   let all ← getBool j "all"
-  pure (jsonInPlace (if all then dictifyAll t else dictifyCxJ t))
+  pure (jsonTreeRes (if all then .ok (dictifyAll t) else dictifyCxJ t) t)
 
 /-- op `c17_undictify` {t, all, trig} -/
 def h_undictify : Handler := fun j => do
   let T ← getTrig j
   let t ← getJ (← j.getObjVal? "t")
   let all ← getBool j "all"
-  pure (jsonInPlace (if all then undictifyAll T t else undictifyCxJ T t))
+  pure (jsonTreeRes (if all then undictifyAll T t else undictifyCxJ T t) t)
 
 /-- op `c17_serialize` {t, fmt | file}: the model up to the library call — either the
 exception, or the library function and the tree handed to it -/
@@ -137,10 +136,9 @@ def h_serialize : Handler := fun j => do
     | .ok f => pure (pathSuffix f)
     | .error _ => getStr j "fmt"
   -- the library call is recorded, not performed: `dumps lib t` answers the marker `lib`
-  let r := serialize (fun lib _ => .ok lib) t fmt
-  match r.1 with
-  | .error e => pure (Json.mkObj [("err", e.tag), ("post", jsonJ r.2), ("fmt", fmt)])
-  | .ok lib => pure (Json.mkObj [("lib", lib), ("tree", jsonJ r.2), ("post", jsonJ r.2), ("fmt", fmt)])
+  match serialize (fun lib _ => .ok lib) t fmt with
+  | .error e => pure (Json.mkObj [("err", e.tag), ("fmt", fmt)])
+  | .ok lib => pure (Json.mkObj [("lib", lib), ("tree", jsonJ (dictifyAll t)), ("fmt", fmt)])
 
 /-- op `c17_deserialize` {parsed: {ok: tree} | {err: tag}, fmt | file, trig, circuit}: the
 library parse is performed by the harness and passed in -/
@@ -156,7 +154,7 @@ def h_deserialize : Handler := fun j => do
   let circuit := (getBool j "circuit").toOption.getD false
   let lib := (Gen.Load.deserializers.find? (fun q => q.1 == fmt)).map (·.2)
   if circuit then
-    pure (Json.mkObj [("res", jsonExcept jsonCirc (deserializeCircuit (fun _ _ => parsed) "" fmt)), ("lib", toJson lib)])
+    pure (Json.mkObj [("res", jsonExcept jsonCirc (deserializeCircuit (fun _ _ => parsed) T "" fmt)), ("lib", toJson lib)])
   else
     pure (Json.mkObj [("res", jsonExcept jsonJ (deserialize (fun _ _ => parsed) T "" fmt)), ("lib", toJson lib)])
 
@@ -193,8 +191,7 @@ def jsonLoadOut : LoadOut → Json
   | .net r => Json.mkObj [("kind", "net"), ("res", jsonExcept (fun bs => Json.arr (bs.map jsonLBranch).toArray) r)]
   | .comp r => Json.mkObj [("kind", "comp"), ("res", jsonExcept jsonComp r)]
   | .circ r => Json.mkObj [("kind", "circ"), ("res", jsonExcept jsonCirc r)]
-  | .inPlace e i => Json.mkObj [("kind", "inplace"), ("cell", i),
-      ("res", match e with | none => Json.mkObj [("ok", Json.null)] | some x => Json.mkObj [("err", x.tag)])]
+  | .tree r => Json.mkObj [("kind", "tree"), ("res", jsonExcept jsonJ r)]
   | .badOp => Json.mkObj [("kind", "badop")]
 
 /-- op `c20_history` {heap: [tree…], ops: [{fn, cell, deg}], trig}: the heap-passing machine
